@@ -115,6 +115,11 @@ namespace pika::thread_pool_bulk_detail {
                     auto const i_end = (std::min)(
                         (static_cast<Shape>(index) + 1) * static_cast<Shape>(task_f->chunk_size),
                         task_f->n);
+#if defined(PIKA_VERIF)
+                    PIKA_VERIF_POINT(1103, op_state, index, task_f->worker_thread);
+                    PIKA_VERIF_POINT(1104, op_state, static_cast<std::uint64_t>(i_begin),
+                        static_cast<std::uint64_t>(i_end));
+#endif
                     for (auto i = i_begin; i < i_end; ++i)
                     {
                         std::apply(pika::util::detail::bind_front(op_state->f, i), ts);
@@ -212,6 +217,9 @@ namespace pika::thread_pool_bulk_detail {
                 // receiver.
                 void finish() const
                 {
+#if defined(PIKA_VERIF)
+                    PIKA_VERIF_POINT(1105, op_state, worker_thread);
+#endif
                     if (--(op_state->tasks_remaining) == 0)
                     {
                         if (op_state->exception_thrown)
@@ -277,6 +285,10 @@ namespace pika::thread_pool_bulk_detail {
                     (worker_thread * num_chunks) / op_state->num_worker_threads);
                 auto const part_end = static_cast<std::uint32_t>(
                     ((worker_thread + 1) * num_chunks) / op_state->num_worker_threads);
+#if defined(PIKA_VERIF)
+                PIKA_VERIF_POINT(1102, op_state, worker_thread,
+                    (static_cast<std::uint64_t>(part_begin) << 32) | part_end);
+#endif
                 queue.reset(part_begin, part_end);
             }
 
@@ -346,6 +358,10 @@ namespace pika::thread_pool_bulk_detail {
                 auto const chunk_size =
                     get_chunk_size(r.op_state->num_worker_threads, r.op_state->shape);
                 auto const num_chunks = (r.op_state->shape + chunk_size - 1) / chunk_size;
+#if defined(PIKA_VERIF)
+                PIKA_VERIF_POINT(1101, r.op_state, static_cast<std::uint64_t>(chunk_size),
+                    static_cast<std::uint64_t>(num_chunks));
+#endif
 
                 // Store sent values in the operation state
                 r.op_state->ts.template emplace<std::tuple<std::decay_t<Ts>...>>(
